@@ -1039,6 +1039,143 @@ fn perm_space(max_k: usize) -> Vec<Perm> {
     v
 }
 
+
+/// Directed family: two successive connections of one client on the same address pair (a
+/// one-port ephemeral range). The first is closed gracefully on both sides while its last
+/// segments are still on the held link; the second is established by handing over only its SYN.
+/// Whatever the second connection's reader reads must be a prefix of what was written on the
+/// second connection.
+fn successive_connections_scenario(seed: u64) -> ScenarioOut {
+    use std::cell::Cell;
+    use std::rc::Rc;
+    let mut out = ScenarioOut::default();
+    let mut r = Rng::new(seed);
+    let tick_ms = r.pick_copy(&[1u64, 2]);
+    let (min_ms, max_ms) = r.pick_copy(&[(1u64, 2u64), (1, 1), (0, 3)]);
+    let old_len = r.range(1, 9) as usize;
+    let new_len = r.range(1, 9) as usize;
+    rec::set_step(0);
+    let mut b = turmoil::Builder::new();
+    b.tick_duration(Duration::from_millis(tick_ms))
+        .epoch(epoch(0))
+        .rng_seed(r.next_u64())
+        .ephemeral_ports(49152..=49152)
+        .min_message_latency(Duration::from_millis(min_ms))
+        .max_message_latency(Duration::from_millis(max_ms))
+        .simulation_duration(Duration::from_secs(1000));
+    let mut sim = b.build();
+    let phase = Rc::new(Cell::new(0u32));
+    let server_read: Rc<std::cell::RefCell<Option<Result<Vec<u8>, String>>>> = Rc::new(std::cell::RefCell::new(None));
+    let sr = server_read.clone();
+    sim.host("server", move || {
+        let sr = sr.clone();
+        async move {
+            let listener = TcpListener::bind("0.0.0.0:9000").await?;
+            // connection 1: nothing to say, nothing received: a graceful close
+            let (s1, _) = listener.accept().await?;
+            drop(s1);
+            // connection 2: read everything the peer writes on it
+            let (mut s2, _) = listener.accept().await?;
+            let mut got = Vec::new();
+            let res = s2.read_to_end(&mut got).await;
+            *sr.borrow_mut() = Some(res.map(|_| got).map_err(|e| format!("{:?}", e.kind())));
+            std::future::pending::<()>().await;
+            Ok(())
+        }
+    });
+    let ph = phase.clone();
+    let old: Vec<u8> = (0..old_len).map(|i| 0xA0 + i as u8).collect();
+    let new: Vec<u8> = (0..new_len).map(|i| 0x10 + i as u8).collect();
+    let (old2, new2) = (old.clone(), new.clone());
+    sim.client("client", async move {
+        let mut c1 = TcpStream::connect("server:9000").await?;
+        tokio::time::sleep(Duration::from_millis(10)).await; // the server's FIN has arrived
+        ph.set(1);
+        while ph.get() != 2 {
+            tokio::time::sleep(Duration::from_millis(1)).await;
+        }
+        // the link is held: write, then close (the only inbound item is a FIN: nothing unread)
+        c1.write_all(&old2).await?;
+        drop(c1);
+        let mut c2 = TcpStream::connect("server:9000").await?;
+        ph.set(3);
+        while ph.get() != 4 {
+            tokio::time::sleep(Duration::from_millis(1)).await;
+        }
+        c2.write_all(&new2).await?;
+        c2.shutdown().await?;
+        tokio::time::sleep(Duration::from_millis(50)).await;
+        Ok(())
+    });
+    let desc = json!({"family": "successive-connections", "successive_seed": seed, "old": vcore::hex(&old), "new": vcore::hex(&new)});
+    let mut guard = 0;
+    let mut step = |sim: &mut turmoil::Sim<'_>| -> bool {
+        guard += 1;
+        guard < 2000 && matches!(util::step(sim), Ok(false))
+    };
+    while phase.get() != 1 {
+        if !step(&mut sim) {
+            out.discarded = Some("connection 1 was not established".into());
+            return out;
+        }
+    }
+    sim.hold("client", "server");
+    phase.set(2);
+    for _ in 0..(4 + 2 * max_ms / tick_ms) {
+        step(&mut sim);
+    }
+    // hand over the second connection's SYN only: one admissible delivery order
+    let mut n = 0;
+    sim.links(|links| {
+        for link in links {
+            for sent in link {
+                if matches!(sent.protocol(), turmoil::Protocol::Tcp(turmoil::Segment::Syn(_))) {
+                    sent.deliver();
+                    n += 1;
+                }
+            }
+        }
+    });
+    out.count("successive_connection_syns_delivered_by_hand", n);
+    while phase.get() != 3 {
+        if !step(&mut sim) {
+            out.discarded = Some("connection 2 was not established (refused?)".into());
+            out.count("successive_connections_second_refused", 1);
+            return out;
+        }
+    }
+    sim.release("client", "server");
+    phase.set(4);
+    for _ in 0..(60 / tick_ms + 20) {
+        if server_read.borrow().is_some() {
+            break;
+        }
+        step(&mut sim);
+    }
+    let got = server_read.borrow().clone();
+    drop(sim);
+    out.count("successive_connection_scenarios", 1);
+    match got {
+        Some(Ok(bytes)) if bytes == new => out.count("second_connection_read_exactly_its_own_bytes", 1),
+        Some(Ok(bytes)) if new.starts_with(&bytes) => out.count("second_connection_read_a_prefix", 1),
+        Some(Err(kind)) => {
+            // an error ends the stream early; nothing foreign was read
+            out.count("second_connection_reset", 1);
+            out.saw("second_connection_errors", kind);
+        }
+        other => out.violate(
+            "stream-corrupted",
+            "C02|stream-corrupted|segments-of-the-previous-connection-on-the-same-address-pair".into(),
+            format!("second connection on the same address pair: {} was written on it, the reader read {:?} (the previous connection's last write was {})", vcore::hex(&new), other.map(|x| x.map(|b| vcore::hex(&b))), vcore::hex(&old)),
+            desc.clone(),
+        ),
+    }
+    out.digest = vcore::digest_str(&format!("succ{tick_ms}{min_ms}{max_ms}{old_len}{new_len}"));
+    out.nontrivial = true;
+    out.sample = Some(desc);
+    out
+}
+
 pub fn run(ctx: &Ctx) -> ! {
     if ctx.replay.is_some() {
         let w = vcore::read_replay(ctx).expect("replay file");
@@ -1053,6 +1190,8 @@ pub fn run(ctx: &Ctx) -> ! {
                 rng_seed: p["rng_seed"].as_u64().unwrap(),
             };
             vcore::run_single(ctx, move |_| perm_scenario(p.clone()))
+        } else if let Some(seed) = w.get("successive_seed").and_then(|x| x.as_u64()) {
+            vcore::run_single(ctx, move |_| successive_connections_scenario(seed))
         } else {
             let seed = w["scenario_seed"].as_u64().unwrap_or(0);
             vcore::run_single(ctx, move |_| scenario(gen(seed), "random"))
@@ -1062,12 +1201,17 @@ pub fn run(ctx: &Ctx) -> ! {
     let space = perm_space(ctx.pick(4, 6));
     let nperm = space.len() as u64;
     let nrandom = ctx.pick(20_000u64, 300_000);
+    let nsucc = ctx.pick(40u64, 600);
     let c2 = ctx.clone();
     let mut report = vcore::run_parallel(
         ctx,
-        nperm + nrandom,
+        nperm + nrandom + nsucc,
         RunOpts { budget_s: ctx.pick(60.0, 700.0), scenario_timeout_s: 120.0 },
         move |idx| {
+            if idx >= nperm + nrandom {
+                let seed = c2.scenario_seed("c02succ", idx);
+                return successive_connections_scenario(seed);
+            }
             if idx < nperm {
                 let mut p = space[idx as usize].clone();
                 p.rng_seed = c2.scenario_seed("c02perm", 0);
@@ -1089,12 +1233,12 @@ pub fn run(ctx: &Ctx) -> ! {
 fn fin() -> Finish<'static> {
     Finish {
         level: "exploration",
-        rule: "random scenarios: write chunkings {0,1,2,7,64,1000, rarely 65537/100000/200001} via write/write_all/try_write+writable, read buffers {0,1,3,64,4096} with peeks, both directions, into_split / tokio::io::split / whole stream, tcp_capacity {1,2,3,8,64}, tick {1,5 ms}, latency ranges with min<max, remote / same-host / 127.0.0.1 peers, IPv4/IPv6, mid-stream hold/release, partition/repair and abortive drops (safety half only for the last two); plus every delivery permutation of the held data segments+FIN of a transfer (k<=4 quick, k<=6 thorough) x {capacity = #segments with idle or eager reader, larger capacity} x both directions via Sim::links; non-trivial = a segment overtook another on the wire, or a writer saw WouldBlock, or a non-identity permutation; distinct = digest of the full API history",
+        rule: "random scenarios: write chunkings {0,1,2,7,64,1000, rarely 65537/100000/200001} via write/write_all/try_write+writable, read buffers {0,1,3,64,4096} with peeks, both directions, into_split / tokio::io::split / whole stream, tcp_capacity {1,2,3,8,64}, tick {1,5 ms}, latency ranges with min<max, remote / same-host / 127.0.0.1 peers, IPv4/IPv6, mid-stream hold/release, partition/repair and abortive drops (safety half only for the last two); plus every delivery permutation of the held data segments+FIN of a transfer (k<=4 quick, k<=6 thorough) x {capacity = #segments with idle or eager reader, larger capacity} x both directions via Sim::links; plus a directed family of two successive connections on one address pair (one-port ephemeral range) whose segments meet on a held link; non-trivial = a segment overtook another on the wire, or a writer saw WouldBlock, or a non-identity permutation; distinct = digest of the full API history",
         assumptions: vec![
             "pending SYNs never exceed tcp_capacity (documented panic)".into(),
             "delivery half only asserted for graceful closes on healthy (or held-then-released) links".into(),
         ],
         min_distinct: 100,
-        required_counters: vec!["reordered_permutations", "fin_arrives_while_queue_full_cases", "segments_overtaken_directions", "wouldblock_observed", "peeks", "empty_buffer_reads", "eof_observed", "zero_length_writes", "ipv6_scenarios", "readers_stopped_before_eof", "writes_larger_than_64k"],
+        required_counters: vec!["reordered_permutations", "fin_arrives_while_queue_full_cases", "segments_overtaken_directions", "wouldblock_observed", "peeks", "empty_buffer_reads", "eof_observed", "zero_length_writes", "ipv6_scenarios", "readers_stopped_before_eof", "writes_larger_than_64k", "successive_connection_scenarios"],
     }
 }
